@@ -77,10 +77,18 @@ def check_unsat(formulas: List[Any], timeout_ms: int = 20000) -> Verdict:
     STATS["queries"] += 1
     t0 = time.time()
     first_ms = min(timeout_ms, 3000)
-    s = z3.Solver()
-    s.set("timeout", first_ms)
-    s.add(*formulas)
-    r = s.check()
+    # brittle nonlinear / quantifier-free UF queries are decided in
+    # milliseconds under one random seed and not in a minute under another:
+    # try three seeds briefly before the slower back ends
+    for seed in (0, 7, 42):
+        s = z3.Solver()
+        s.set("timeout", first_ms)
+        if seed:
+            s.set("random_seed", seed)
+        s.add(*formulas)
+        r = s.check()
+        if r != z3.unknown or timeout_ms <= first_ms:
+            break
     ms = (time.time() - t0) * 1000
     STATS["z3_ms"] += ms
     if r == z3.unsat:
